@@ -95,11 +95,20 @@ def R1_plugin(ctx):
     pushes = [c for c in pushes if c not in result_pushes]
     # one vector of (key, options) pairs instead of two aligned vectors: aligned by construction
     pair_push = None
+    opt_field = "1"
     for c in pushes:
         v_ = proj_simplify(cleanA(tm.operand(c.args[1], c.bb)))
         if v_[0] == "tuple" and len(v_[1]) == 2:
             pair_push = (c, v_)
-    derived_idx = _indices_from_options(F, b, tm, pushes, pair=pair_push is not None) if len(pushes) in (1, 2) else None
+        elif v_[0] == "agg" and len(v_[3]) == 2 and "serde_json" not in v_[1]:
+            # a small private struct {key, options} instead of a tuple: read as the pair (key-like field, array field)
+            ARR_ = cleanA(arr_sw[2]) if arr_sw is not None else None
+            of_ = [n for n, t_ in v_[3] if t_ == ARR_]
+            kf_ = [n for n, t_ in v_[3] if t_ != ARR_]
+            if len(of_) == 1 and len(kf_) == 1:
+                pair_push = (c, ("tuple", (dict(v_[3])[kf_[0]], dict(v_[3])[of_[0]])))
+                opt_field = of_[0]
+    derived_idx = _indices_from_options(F, b, tm, pushes, pair=opt_field if pair_push is not None else None) if len(pushes) in (1, 2) else None
     ctx.check(arr_sw is not None and (len(pushes) == 3 or derived_idx is True), "three-aligned-vectors", "expected three per-axis vectors filled under `value.as_array()` (found %d pushes%s)" % (len(pushes), "; " + derived_idx if isinstance(derived_idx, str) else ""), b.where())
     if derived_idx is True:
         ctx.check(True, "axis:indices=0..len(array)", "", b.where(), detail="indices[i] = (0..options[i].len()).collect(), one per option list")
@@ -342,7 +351,7 @@ def _axis_part(t, I):
     """t is the I-th element of a sequence S that does not itself depend on I, or a tuple component of that element:
     returns (S, component path), else None"""
     path = ()
-    while t[0] == "field" and str(t[2]).isdigit():
+    while t[0] == "field" and isinstance(t[1], tuple) and t[1][0] in ("field", "at"):
         path = (str(t[2]),) + path
         t = t[1]
     if t[0] == "at" and t[2] == I and not contains(t[1], lambda q: q == I):
@@ -394,7 +403,7 @@ def _indices_from_options(F, b, tm, pushes, pair=False):
     X = [q for q in subterms(elem) if q[0] == "at" and q[2] == ("i",)]
     if len(X) != 1 or lens != {("len", X[0][1])}:
         return "the index lists do not follow one sequence"
-    of = ("field", X[0], "1") if pair else X[0]          # the option list of position i: options[i] / pairs[i].1
+    of = ("field", X[0], pair) if pair else X[0]          # the option list of position i: options[i] / pairs[i].1 / axes[i].options
     want = ("agg", "std::ops::Range", "Range", (("start", ("const", "usize", 0)), ("end", ("call", "std::vec::Vec::<T, A>::len", (of,)))))
     elem = rewrite(elem, lambda y: ("call", "std::vec::Vec::<T, A>::len", y[2]) if y[0] == "call" and len(y[2]) == 1 and re.search(r"slice::<impl \[T\]>::len$", y[1]) else None)
     e = elem
